@@ -6,7 +6,8 @@ C=$1; shift
 cd /repo || exit 2
 if ! git diff --quiet; then echo "/repo has uncommitted changes"; exit 2; fi
 git show "$C" -- src | git apply -R || { echo "cannot reverse-apply $C"; exit 2; }
-trap 'git -C /repo checkout -- . ' EXIT
+rm -rf /verif/target/evidence.keep; cp -r /verif/evidence /verif/target/evidence.keep
+trap 'git -C /repo checkout -- . ; rm -rf /verif/evidence; mv /verif/target/evidence.keep /verif/evidence' EXIT
 for prop in "$@"; do
   out=$(cd /verif && ./check $prop 2>&1); rc=$?
   echo "UNFIX $C ($(git log -1 --format=%s $C | cut -c1-60)) check $prop -> exit $rc"
